@@ -449,6 +449,41 @@ Proof.
   cbn [iter_nmap_range]. destruct (parse s) as [xs [e|]]; [reflexivity|].
   destruct (iter_nmap_range pton6 ip_address rest). reflexivity.
 Qed.
+
+(* the probe used for CIDR targets too large to enumerate: same validity flag, and the first three addresses of the
+   generator (what itertools.islice(iter_nmap_range(s), 3) sees), errors included *)
+Lemma zseq_firstn lo n k : firstn k (zseq lo n) = zseq lo (Nat.min k n).
+Proof.
+  revert lo n. induction k as [|k IH]; intros lo n; [reflexivity|].
+  destruct n as [|n]; [reflexivity|]. cbn [zseq Nat.min firstn]. now rewrite IH.
+Qed.
+
+Lemma parse_slash_split s : contains_char ch_slash s = true ->
+  parse s = match parse_cidr_spec pton6 s with
+            | Ok (f, l) => (map (fun x => (4, x)) (py_range f (l + 1)), None)
+            | Raise e => ([], Some e)
+            end.
+Proof.
+  intros Hs. unfold parse_nmap_target_spec, parse_cidr_spec. rewrite Hs.
+  destruct (split1 ch_slash s) as [|a [|b [|c r]]]; try reflexivity.
+  destruct (py_int 10 b) as [p0|]; [|reflexivity].
+  destruct (negb ((0 <? p0) && (p0 <? 33))); [reflexivity|].
+  destruct (ipnetwork_of_str pton6 s) as [[[ver v] pl]|e]; [|reflexivity].
+  destruct (negb (ver =? 4)); reflexivity.
+Qed.
+
+Theorem cidr_probe_ok s : contains_char ch_slash s = true ->
+  fst (cidr_probe pton6 s) = firstn 3 (fst (parse s)) /\
+  (snd (cidr_probe pton6 s) = snd (parse s)) /\
+  valid_of_gen (cidr_probe pton6 s) = valid_nmap_range pton6 ip_address s.
+Proof.
+  intros Hs. unfold valid_nmap_range, cidr_probe. rewrite (parse_slash_split s Hs).
+  destruct (parse_cidr_spec pton6 s) as [[f l]|e]; cbn [fst snd]; [|repeat split; reflexivity].
+  rewrite firstn_map. unfold py_range. rewrite zseq_firstn.
+  assert (E : Z.to_nat (Z.min (f + 3) (l + 1) - f) = Nat.min 3 (Z.to_nat (l + 1 - f))) by lia.
+  rewrite E. split; [reflexivity|]. split; [reflexivity|].
+  unfold valid_of_gen. destruct (Z.to_nat (l + 1 - f)) as [|[|[|n]]]; reflexivity.
+Qed.
 End Platform.
 
 (* the '/' branch does not depend on what inet_pton(AF_INET6) answers *)
